@@ -144,7 +144,8 @@ fn math_impl(
             self_mode: SelfMode::None,
             extra_params: vec![],
             implicit: vec![],
-            doc: format!("{}: `<{strukt} as Math<{elem}>>::{n}`", src.rel),
+            pure_def: false,
+        doc: format!("{}: `<{strukt} as Math<{elem}>>::{n}`", src.rel),
         };
         let r = translate_fn(reg, spec);
         out.errors.extend(r.errors);
@@ -209,7 +210,8 @@ pub fn gen_math(
                     self_mode: SelfMode::None,
                     extra_params: vec![],
                     implicit: vec![],
-                    doc: format!("{}: `{n}`", src.rel),
+                    pure_def: false,
+        doc: format!("{}: `{n}`", src.rel),
                 };
                 let r = translate_fn(reg, spec);
                 out.errors.extend(r.errors);
